@@ -50,10 +50,9 @@ def intDpi (n : Int) (d : Nat) : Int :=
 /-- `ImagePart._native_size` (one dimension): `int(914400 * px / dpi)` -/
 def nativeLen (px : Nat) (dpi : Nat) : Int := (914400 * (px : Int)) / (dpi : Int)
 
-/-- `ImagePart.scale`: `0` and `None` are both "not given" (truthiness) -/
+/-- `ImagePart.scale`: a dimension is "not given" exactly when it is `None` (0 is a size) -/
 def scale (iw ih : Int) (cx cy : Option Int) : Int × Int :=
-  let given (o : Option Int) : Option Int := match o with | some v => if v = 0 then none else some v | none => none
-  match given cx, given cy with
+  match cx, cy with
   | some x, some y => (x, y)
   | some x, none => (x, roundHE (ih * x) iw.toNat)
   | none, some y => (roundHE (iw * y) ih.toNat, y)
